@@ -1,6 +1,8 @@
 package mv
 
 import (
+	"bytes"
+	"encoding/json"
 	"os"
 	"testing"
 
@@ -164,5 +166,98 @@ func TestC14(t *testing.T) {
 			}
 			return s
 		}, st.indexed > 0, labels, 0)
+	})
+}
+
+// twin returns the metamorphic twin of a program: the same logical history
+// with plain and Alloc-built operations swapped and DeferredSort and
+// CachePersisted flipped.
+func twin(p *Program) *Program {
+	q := &Program{}
+	if err := json.Unmarshal(p.JSON(), q); err != nil {
+		panic(err)
+	}
+	var flip func(b *Batch)
+	flip = func(b *Batch) {
+		if b == nil {
+			return
+		}
+		for i := range b.Ops {
+			if !b.Ops[i].Reject {
+				b.Ops[i].Alloc = !b.Ops[i].Alloc
+			}
+		}
+		for i := range b.Children {
+			flip(b.Children[i].B)
+		}
+	}
+	for i := range q.Ops {
+		flip(q.Ops[i].B)
+	}
+	q.Cfg.DeferredSort = !q.Cfg.DeferredSort
+	q.Cfg.CachePersisted = !q.Cfg.CachePersisted
+	return q
+}
+
+func hostileInProgram(p *Program) (hostile, boundary, limit, reject bool) {
+	var walk func(b *Batch)
+	isHostile := func(x []byte) bool {
+		return bytes.Contains(x, []byte("0m1o2s")) || bytes.Contains(x, []byte("3s4p5s")) || bytes.Contains(x, []byte("moss-data-store"))
+	}
+	walk = func(b *Batch) {
+		if b == nil {
+			return
+		}
+		for _, kv := range b.Ops {
+			if kv.Reject {
+				reject = true
+				continue
+			}
+			if isHostile(kv.K) || isHostile(kv.V) {
+				hostile = true
+			}
+			if n := len(kv.V); n >= 4076 && n <= 8192 {
+				boundary = true
+			}
+			if len(kv.K) == 1<<24-1 {
+				limit = true
+			}
+		}
+		for i := range b.Children {
+			walk(b.Children[i].B)
+		}
+	}
+	for _, o := range p.Ops {
+		walk(o.B)
+	}
+	return
+}
+
+func TestC19(t *testing.T) {
+	spec := &GenSpec{Prop: "C19", Backings: []string{"mem", "store", "store", "store", "ll"}, MaxOps: 25, Holds: true, Reopen: true,
+		Hostile: true, Alloc: true, Oversize: true, OversizeValue: os.Getenv("VERIF_TIER") == "thorough", Merge: true,
+		Compaction: []int{0, 1, 2}}
+	Col.SetProp("C19", "histories with keys/values from: tiny alphabet incl. the empty key (alone in a batch too), arbitrary bytes, 0x00/0xFF, the store's magic markers (also as footer-header look-alikes with version and length words), values of 1, 4076, 4095-4097 and 8192 bytes (some ending in the magic), the 2^24-1 byte key (accepted) and 2^24-byte keys / 2^28-byte values (thorough) that must be rejected with ErrKeyTooLarge / ErrValueTooLarge in the middle of a batch; operations built through Alloc/AllocSet/AllocDel/AllocMerge mixed with plain calls. Each program runs twice: as generated and as its twin (plain<->Alloc swapped, DeferredSort and CachePersisted flipped). After every op the collection, after every completed round the store, and at the end the reopened directory are compared byte-exactly and in order with the reference. Non-trivial: the program contains a magic look-alike, a page-boundary-sized value or a limit-sized key AND went through persistence and a reopen. Distinct = distinct program hash.")
+	rapid.Check(t, func(rt *rapid.T) {
+		p, excluded := genHistory(rt, spec)
+		o := Oracles{CollEveryStep: true, StoreEveryStep: true, FinalReopen: true}
+		h := RunHistory(rt, p, o)
+		h2 := RunHistory(rt, twin(p), o)
+		hostile, boundary, limit, reject := hostileInProgram(p)
+		labels := h.Labels
+		if hostile {
+			labels["magic-look-alike"] = 1
+		}
+		if boundary {
+			labels["page-boundary-value"] = 1
+		}
+		if limit {
+			labels["limit-sized-key"] = 1
+		}
+		if reject {
+			labels["rejected-oversize-op"] = 1
+		}
+		nt := (hostile || boundary || limit) && h.Labels["reopen:caught-up"] > 0 && h2.Labels["reopen:caught-up"] > 0 && h.DataRounds > 0
+		Col.Case(p.Hash(), p.Compact, nt, labels, excluded)
 	})
 }
